@@ -31,18 +31,32 @@
 (* is bound to the code twice: against the live object and against a brand *)
 (* new FlowIRConcrete built from raw().                                    *)
 (*                                                                         *)
+(*   repeatInterval     "-" absent | "0" | "5"      (workflowAttributes)    *)
+(*   interpreter        "-" absent | "B" = bash     (command)               *)
+(* Derived options (computed from other options, not stored by the caller): *)
+(*   isRepeat        = repeatInterval not in {None, 0}; the description     *)
+(*                     also STORES a copy (srep) that is refreshed only     *)
+(*                     when a component is loaded / added                   *)
+(*   expandArguments = "none" when an interpreter is set                    *)
+(* Platforms: every platform of PlatSeq outside InitPlats does not exist    *)
+(* initially; set_platform_global_variable / set_platform_stage_variable    *)
+(* create its scope on demand ("#" = the stage dictionary does not exist).  *)
+(*                                                                         *)
 (* Named deviations of the code that the design (the invariants) must not  *)
 (* depend on, selected by constants:                                       *)
 (*   Hits        which components' cache entries the per-component         *)
-(*               invalidation of c removes.  The code builds a regular     *)
-(*               expression from the un-escaped component name and uses    *)
+(*               invalidation of c removes.  The code built a regular      *)
+(*               expression from the un-escaped component name and used    *)
 (*               re.match (a prefix match): "a" also removes "ab" (harmless*)
 (*               over-invalidation), "a+b" does NOT remove "a+b" (stale).  *)
 (*               The design needs only  c \in Hits[c]  (SelfHit).          *)
-(*   LenientPoisons  the code stores the result of a query made with       *)
+(*   LenientPoisons  the code stored the result of a query made with       *)
 (*               ignore_convert_errors=True under the same key as the      *)
 (*               strict result.  FALSE = design (a lenient result is only  *)
 (*               cached when no conversion error was ignored).             *)
+(*   DerivedFrozen   queries that are not fully resolved (raw, nodef, prim, *)
+(*               noinj) answer with the STORED isRepeat instead of the one  *)
+(*               derived from the current repeatInterval.  FALSE = design.  *)
 (***************************************************************************)
 EXTENDS Integers, Sequences, FiniteSets, TLC, Json
 
@@ -50,11 +64,19 @@ CONSTANTS CompSeq,         \* sequence of component labels, e.g. <<"c1", "c2">> 
           StageOf,         \* [component -> stage index]
           Hits,            \* [component -> set of components whose cache entries invalidate_cache_for_component removes]
           PlatSeq,         \* sequence of platforms, the first one is "default"
+          InitPlats,       \* the platforms the description mentions initially
+          QueryPlats,      \* platforms queries are made for        } subsets of the platforms: small runs leave the
+          MutPlats,        \* platforms the variable mutators address } on-demand platform alone
           Vals,            \* values a variable can be set to, e.g. {"1", "2"}
+          SetArgVals,      \* values command.arguments can be set to (subset of {"L", "R"})
+          SetNpVals,       \* values numberProcesses can be set to (subset of {"1", "2", "R"})
+          RiVals,          \* values repeatInterval can be set to (subset of {"0", "5"}); {} switches SetRi/DelRi off
+          IpVals,          \* values command.interpreter can be set to (subset of {"B"}); {} switches SetIp/DelIp off
           Flavours,        \* query flavours explored (subset of AllFlavours)
           Templates,       \* component templates for add_component / update_component (subset of AllTemplates)
           BaseIds,         \* which initial descriptions are explored (subset of 0..2)
           LenientPoisons,  \* see above
+          DerivedFrozen,   \* see above
           HowSet,          \* call paths explored for the component setters (subset of {"api", "conf", "ref"}); they differ
           HowDel,          \* only in `last`, so the design runs use {"api"} and the emission runs all of them
           Emit             \* TRUE: NextE prints every transition as JSON for the conformance driver
@@ -79,15 +101,22 @@ Lenient(f) == f = "lenient"                         \* ignore_convert_errors=Tru
 (* need_fully_resolved_flowir of the code: the only flavours that read / fill the cache *)
 UsesCache(f) == ~Raw(f) /\ Incl(f) /\ ~Prim(f) /\ Inj(f)
 
-AllTemplates == {"T1", "T2", "T3", "T4", "T5"}
-Template(t) == CASE t = "T1" -> [present |-> TRUE, cv |-> U,   args |-> "R", np |-> U]
-                 [] t = "T2" -> [present |-> TRUE, cv |-> "2", args |-> "L", np |-> "R"]
-                 [] t = "T3" -> [present |-> TRUE, cv |-> "1", args |-> "R", np |-> "2"]
-                 [] t = "T4" -> [present |-> TRUE, cv |-> U,   args |-> "P", np |-> U]     \* needs %(replica)s
-                 [] t = "T5" -> [present |-> TRUE, cv |-> U,   args |-> "L", np |-> "X"]   \* numberProcesses not an integer
-Absent == [present |-> FALSE, cv |-> U, args |-> "L", np |-> U]
+AllTemplates == {"T1", "T2", "T3", "T4", "T5", "T6"}
+Tpl(cv, args, np, ri, ip) == [present |-> TRUE, cv |-> cv, args |-> args, np |-> np, ri |-> ri, srep |-> U, ip |-> ip]
+Template(t) == CASE t = "T1" -> Tpl(U,   "R", U,   U,   U)
+                 [] t = "T2" -> Tpl("2", "L", "R", U,   U)
+                 [] t = "T3" -> Tpl("1", "R", "2", U,   U)
+                 [] t = "T4" -> Tpl(U,   "P", U,   U,   U)     \* needs %(replica)s
+                 [] t = "T5" -> Tpl(U,   "L", "X", U,   U)     \* numberProcesses not an integer
+                 [] t = "T6" -> Tpl(U,   "L", U,   "5", "B")   \* a repeating component run through an interpreter
+Absent == [present |-> FALSE, cv |-> U, args |-> "L", np |-> U, ri |-> U, srep |-> U, ip |-> U]
 
-VARIABLES D,       \* [gv : [Plats -> ValsU], sv : [Plats -> [Stages -> ValsU]], comp : [Comps -> component record]]
+(* isRepeat as inject_default_values_to_component derives it; Norm = what loading / add_component do to a definition *)
+Derive(ri) == IF ri = "5" THEN "T" ELSE "F"
+Norm(cc)   == IF cc.ri # U THEN [cc EXCEPT !.srep = Derive(cc.ri)] ELSE cc
+
+VARIABLES D,       \* [kn : [Plats -> BOOLEAN] (platform exists), gv : [Plats -> values], sv : [Plats -> [Stages -> values or "#"]],
+                   \*  comp : [Comps -> component record]]
           cache,   \* partial function <<component, platform>> -> result record (FlowIRConcrete._cache)
           handed,  \* which dictionary the caller still holds from the last successful query: "hit" (answered from the
                    \* cache), "miss" (resolved and stored), "other" (resolved, not stored), or "none"
@@ -97,33 +126,44 @@ View == <<D, cache, handed>>
 DesignView == <<D, cache>>     \* handed only enables MutateReturned, which changes neither D nor cache
 
 Keys == Comps \X Plats
-Ok(v, a, n) == [kind |-> "ok", v |-> v, args |-> a, np |-> n]
-Err(k)      == [kind |-> k, v |-> U, args |-> U, np |-> U]
+NoDict == "#"
+Ok(v, a, n, ri, rep, xa) == [kind |-> "ok", v |-> v, args |-> a, np |-> n, ri |-> ri, rep |-> rep, xa |-> xa]
+Err(k)      == [kind |-> k, v |-> U, args |-> U, np |-> U, ri |-> U, rep |-> U, xa |-> U]
 Done        == Err("done")          \* a mutator that returned normally
 NoCache     == [k \in {} |-> Done]
 
 ---------------------------------------------------------------------------
 (* Resolve: the configuration computed from scratch from the description (the oracle).                     *)
 (* Layering of get_component_variables, highest priority first.                                             *)
+Val(x) == IF x = NoDict THEN U ELSE x
 Layered(DD, c, p, incl) ==
   LET st == StageOf[c] IN
   IF DD.comp[c].cv # U THEN DD.comp[c].cv
-  ELSE IF incl /\ p # Default /\ DD.sv[p][st] # U THEN DD.sv[p][st]
+  ELSE IF incl /\ p # Default /\ Val(DD.sv[p][st]) # U THEN DD.sv[p][st]
   ELSE IF incl /\ p # Default /\ DD.gv[p] # U THEN DD.gv[p]
-  ELSE IF incl /\ DD.sv[Default][st] # U THEN DD.sv[Default][st]
+  ELSE IF incl /\ Val(DD.sv[Default][st]) # U THEN DD.sv[Default][st]
   ELSE IF incl THEN DD.gv[Default]
   ELSE U
 
-Resolve(DD, c, p, f) ==
+(* frozen = TRUE: the stored isRepeat is used as it is (what the code did); FALSE: as a freshly loaded description has it *)
+ResolveWith(DD, c, p, f, frozen) ==
   LET cc  == DD.comp[c]
       vv  == Layered(DD, c, p, Incl(f))
       npI == IF cc.np = U THEN (IF Inj(f) THEN "1" ELSE U) ELSE cc.np      \* default numberProcesses is 1
+      st  == IF frozen THEN cc.srep ELSE Norm(cc).srep
+      rep == IF UsesCache(f) THEN (IF cc.ri # U THEN Derive(cc.ri) ELSE "F")      \* derived at query time from the merged options
+             ELSE IF st # U THEN st ELSE IF Inj(f) THEN "F" ELSE U              \* the component's own (loaded) value
+      xa  == IF cc.ip # U THEN "N" ELSE IF Inj(f) THEN "D" ELSE U               \* interpreters never expand their arguments
   IN IF ~cc.present THEN Err("ComponentUnknown")
-     ELSE IF Raw(f) THEN Ok(vv, cc.args, npI)
+     ELSE IF ~DD.kn[p] THEN Err("PlatformUnknown")
+     ELSE IF Raw(f) THEN Ok(vv, cc.args, npI, cc.ri, rep, xa)
      ELSE IF (cc.args = "R" \/ cc.np = "R") /\ vv = U THEN Err("VariableUnknown")
      ELSE IF cc.args = "P" /\ ~Prim(f) THEN Err("VariableUnknown")           \* replica is only tolerated for primitive graphs
      ELSE IF cc.np = "X" /\ ~Lenient(f) THEN Err("ConvertError")
-     ELSE Ok(vv, IF cc.args = "R" THEN vv ELSE cc.args, IF cc.np = "R" THEN vv ELSE npI)
+     ELSE Ok(vv, IF cc.args = "R" THEN vv ELSE cc.args, IF cc.np = "R" THEN vv ELSE npI, cc.ri, rep, xa)
+
+Resolve(DD, c, p, f) == ResolveWith(DD, c, p, f, FALSE)          \* the oracle
+Answer(DD, c, p, f)  == ResolveWith(DD, c, p, f, DerivedFrozen)  \* what the implementation computes on a cache miss
 
 (* does a lenient query of c return something a strict one would not? *)
 LenientDiffers(DD, c, p) == Resolve(DD, c, p, "lenient") # Resolve(DD, c, p, "full")
@@ -131,14 +171,17 @@ LenientDiffers(DD, c, p) == Resolve(DD, c, p, "lenient") # Resolve(DD, c, p, "fu
 ---------------------------------------------------------------------------
 Base(b) ==
   LET none == [p \in Plats |-> U]
-      nost == [p \in Plats |-> [s \in Stages |-> U]]
+      nost == [p \in Plats |-> [s \in Stages |-> IF p \in InitPlats THEN U ELSE NoDict]]
+      known == [p \in Plats |-> p \in InitPlats]
       c1 == CompSeq[1]
-  IN CASE b = 0 -> [gv |-> [none EXCEPT ![Default] = "1"], sv |-> nost,
+  IN CASE b = 0 -> [kn |-> known, gv |-> [none EXCEPT ![Default] = "1"], sv |-> nost,
                     comp |-> [c \in Comps |-> Template("T1")]]
-       [] b = 1 -> [gv |-> [p \in Plats |-> "1"], sv |-> [p \in Plats |-> [s \in Stages |-> IF p = Default THEN "2" ELSE U]],
+       [] b = 1 -> [kn |-> known, gv |-> [p \in Plats |-> IF p \in InitPlats THEN "1" ELSE U],
+                    sv |-> [p \in Plats |-> [s \in Stages |-> IF p = Default THEN "2" ELSE nost[p][s]]],
                     comp |-> [c \in Comps |-> IF c = c1 THEN Template("T3") ELSE Absent]]
-       [] b = 2 -> [gv |-> none, sv |-> nost,
-                    comp |-> [c \in Comps |-> IF c = c1 THEN [Template("T3") EXCEPT !.np = "R"] ELSE Template("T5")]]
+       [] b = 2 -> [kn |-> known, gv |-> none, sv |-> nost,
+                    comp |-> [c \in Comps |-> IF c = c1 THEN Norm([Template("T3") EXCEPT !.np = "R", !.ri = "5"])
+                                               ELSE [Template("T5") EXCEPT !.ip = "B"]]]
 
 Call(act, c, p, st, x, how, hit, ret) ==
   [act |-> act, c |-> c, p |-> p, st |-> st, x |-> x, how |-> how, hit |-> hit, ret |-> ret]
@@ -157,7 +200,7 @@ Store(k, r) == [kk \in (DOMAIN cache) \cup {k} |-> IF kk = k THEN r ELSE cache[k
 Query(c, p, f) ==
   LET k   == <<c, p>>
       hit == UsesCache(f) /\ k \in DOMAIN cache           \* the lookup precedes everything else, even "does c exist"
-      ret == IF hit THEN cache[k] ELSE Resolve(D, c, p, f)
+      ret == IF hit THEN cache[k] ELSE Answer(D, c, p, f)
       fill == /\ UsesCache(f) /\ ~hit /\ ret.kind = "ok"
               /\ (Lenient(f) /\ ~LenientPoisons) => ~LenientDiffers(D, c, p)
   IN /\ cache' = IF fill THEN Store(k, ret) ELSE cache
@@ -184,7 +227,13 @@ DelCompVar(c, how)    == CompMutator("DelCompVar", c, U, how, D.comp[c].cv # U, 
 SetArgs(c, x, how)    == CompMutator("SetArgs", c, x, how, TRUE, [D.comp[c] EXCEPT !.args = x], U)
 SetNp(c, x, how)      == CompMutator("SetNp", c, x, how, TRUE, [D.comp[c] EXCEPT !.np = x], U)
 DelNp(c, how)         == CompMutator("DelNp", c, U, how, D.comp[c].np # U, [D.comp[c] EXCEPT !.np = U], "KeyError")
-(* update_component(c, new definition) *)
+(* #workflowAttributes.repeatInterval is the source of the derived isRepeat: the stored copy (srep) is NOT refreshed *)
+SetRi(c, x, how)      == CompMutator("SetRi", c, x, how, TRUE, [D.comp[c] EXCEPT !.ri = x], U)
+DelRi(c, how)         == CompMutator("DelRi", c, U, how, D.comp[c].ri # U, [D.comp[c] EXCEPT !.ri = U], "KeyError")
+(* #command.interpreter is the source of the derived expandArguments *)
+SetIp(c, x, how)      == CompMutator("SetIp", c, x, how, TRUE, [D.comp[c] EXCEPT !.ip = x], U)
+DelIp(c, how)         == CompMutator("DelIp", c, U, how, D.comp[c].ip # U, [D.comp[c] EXCEPT !.ip = U], "KeyError")
+(* update_component(c, new definition): the definition is stored as given (no derived fields are added) *)
 ReplaceComp(c, t)     == CompMutator("ReplaceComp", c, t, "api", TRUE, Template(t), U)
 
 (* delete_component(c): the component's entries are invalidated *)
@@ -203,7 +252,7 @@ AddComp(c, t) ==
   IF D.comp[c].present
   THEN /\ UNCHANGED <<D, cache, handed>>
        /\ last' = Call("AddComp", c, U, -1, t, "api", FALSE, Err("ComponentExists"))
-  ELSE /\ D' = [D EXCEPT !.comp[c] = Template(t)]
+  ELSE /\ D' = [D EXCEPT !.comp[c] = Norm(Template(t))]       \* add_component derives isRepeat for the stored definition
        /\ last' = Call("AddComp", c, U, -1, t, "api", FALSE, Done)
        /\ UNCHANGED <<cache, handed>>
 
@@ -211,16 +260,25 @@ AddComp(c, t) ==
 (* how: "api" = set_global_variable / set_stage_variable / set_platform_global_variable / set_platform_stage_variable *)
 (*      "ref" = get_platform_global_variables / get_platform_stage_variables / get_default_*_variables with           *)
 (*              return_copy=False followed at once by an in-place assignment or deletion (x = "-")                    *)
+(* A platform that does not exist yet: the set_* calls create its scope on demand; the return_copy=False getters    *)
+(* raise FlowIRPlatformUnknown (get_platform_stage_variables only after it has cleared the cache).  A stage            *)
+(* dictionary that does not exist ("#") is handed out as a detached empty dictionary: the in-place change is lost.     *)
 SetGlobalVar(p, x, how, act) ==
-  /\ D' = [D EXCEPT !.gv[p] = x]
-  /\ cache' = NoCache
-  /\ last' = Call(act, U, p, -1, x, how, FALSE, Done)
-  /\ UNCHANGED handed
+  IF how = "ref" /\ ~D.kn[p]
+  THEN /\ UNCHANGED <<D, cache, handed>>
+       /\ last' = Call(act, U, p, -1, x, how, FALSE, Err("PlatformUnknown"))
+  ELSE /\ D' = [D EXCEPT !.gv[p] = x, !.kn[p] = TRUE]
+       /\ cache' = NoCache
+       /\ last' = Call(act, U, p, -1, x, how, FALSE, Done)
+       /\ UNCHANGED handed
 SetStageVarOf(p, s, x, how, act) ==
-  /\ D' = [D EXCEPT !.sv[p][s] = x]
   /\ cache' = NoCache
-  /\ last' = Call(act, U, p, s, x, how, FALSE, Done)
   /\ UNCHANGED handed
+  /\ IF how = "ref" /\ ~D.kn[p]
+     THEN D' = D /\ last' = Call(act, U, p, s, x, how, FALSE, Err("PlatformUnknown"))
+     ELSE IF how = "ref" /\ D.sv[p][s] = NoDict
+     THEN D' = D /\ last' = Call(act, U, p, s, x, how, FALSE, Done)
+     ELSE D' = [D EXCEPT !.sv[p][s] = x, !.kn[p] = TRUE] /\ last' = Call(act, U, p, s, x, how, FALSE, Done)
 
 SetGlobal(x)           == SetGlobalVar(Default, x, "api", "SetGlobal")             \* set_global_variable
 SetStageVar(s, x)      == SetStageVarOf(Default, s, x, "api", "SetStageVar")       \* set_stage_variable
@@ -237,22 +295,25 @@ MutateReturned ==
   /\ UNCHANGED <<D, cache>>
 
 ASSUME HowSet \subseteq {"api", "conf", "ref"} /\ HowDel \subseteq {"api", "conf"}
-SetArgVals == {"L", "R"}
-SetNpVals  == Vals \cup {"R"}
+ASSUME InitPlats \subseteq Plats /\ Default \in InitPlats /\ QueryPlats \subseteq Plats /\ MutPlats \subseteq Plats
 
 Next ==
-  \/ \E c \in Comps, p \in Plats, f \in Flavours : Query(c, p, f)
+  \/ \E c \in Comps, p \in QueryPlats, f \in Flavours : Query(c, p, f)
   \/ \E c \in Comps, x \in Vals, h \in HowSet : SetCompVar(c, x, h)
   \/ \E c \in Comps, h \in HowDel : DelCompVar(c, h)
   \/ \E c \in Comps, x \in SetArgVals, h \in HowSet : SetArgs(c, x, h)
   \/ \E c \in Comps, x \in SetNpVals, h \in HowSet : SetNp(c, x, h)
   \/ \E c \in Comps, h \in HowDel : DelNp(c, h)
+  \/ \E c \in Comps, x \in RiVals, h \in HowSet : SetRi(c, x, h)
+  \/ \E c \in Comps, h \in HowDel : RiVals # {} /\ DelRi(c, h)
+  \/ \E c \in Comps, x \in IpVals, h \in HowSet : SetIp(c, x, h)
+  \/ \E c \in Comps, h \in HowDel : IpVals # {} /\ DelIp(c, h)
   \/ \E x \in Vals : SetGlobal(x)
   \/ \E s \in Stages, x \in Vals : SetStageVar(s, x)
-  \/ \E p \in Plats, x \in Vals : SetPlatformGlobal(p, x)
-  \/ \E p \in Plats, s \in Stages, x \in Vals : SetPlatformStage(p, s, x)
-  \/ \E p \in Plats, x \in ValsU : InPlaceGlobal(p, x)
-  \/ \E p \in Plats, s \in Stages, x \in ValsU : InPlaceStage(p, s, x)
+  \/ \E p \in MutPlats, x \in Vals : SetPlatformGlobal(p, x)
+  \/ \E p \in MutPlats, s \in Stages, x \in Vals : SetPlatformStage(p, s, x)
+  \/ \E p \in MutPlats, x \in ValsU : InPlaceGlobal(p, x)
+  \/ \E p \in MutPlats, s \in Stages, x \in ValsU : InPlaceStage(p, s, x)
   \/ \E c \in Comps, t \in Templates : AddComp(c, t)
   \/ \E c \in Comps, t \in Templates : ReplaceComp(c, t)
   \/ \E c \in Comps : DeleteComp(c)
@@ -263,10 +324,13 @@ Spec == Init /\ [][Next]_vars
 ---------------------------------------------------------------------------
 (* The property *)
 AllValsU == {"1", "2", U}
-TypeOK == /\ D.gv \in [Plats -> AllValsU]
-          /\ D.sv \in [Plats -> [Stages -> AllValsU]]
+TypeOK == /\ D.kn \in [Plats -> BOOLEAN] /\ \A p \in InitPlats : D.kn[p]
+          /\ D.gv \in [Plats -> AllValsU]
+          /\ D.sv \in [Plats -> [Stages -> AllValsU \cup {NoDict}]]
+          /\ \A p \in Plats : ~D.kn[p] => (D.gv[p] = U /\ \A s \in Stages : D.sv[p][s] = NoDict)
           /\ \A c \in Comps : /\ D.comp[c].cv \in AllValsU /\ D.comp[c].args \in {"L", "R", "P"}
                               /\ D.comp[c].np \in AllValsU \cup {"R", "X"}
+                              /\ D.comp[c].ri \in {U, "0", "5"} /\ D.comp[c].srep \in {U, "T", "F"} /\ D.comp[c].ip \in {U, "B"}
                               /\ (~D.comp[c].present => D.comp[c] = Absent)
           /\ DOMAIN cache \subseteq Keys
           /\ handed \in {"none", "hit", "miss", "other"}
@@ -301,9 +365,11 @@ StageSeq == LET RECURSIVE Sorted(_)
             IN Sorted(Stages)
 
 CodeOf(DD, ca, ha) ==
-  Cat([i \in 1..Len(PlatSeq) |-> DD.gv[PlatSeq[i]] \o Cat([j \in 1..Len(StageSeq) |-> DD.sv[PlatSeq[i]][StageSeq[j]]])])
+  Cat([i \in 1..Len(PlatSeq) |-> (IF DD.kn[PlatSeq[i]] THEN "K" ELSE U) \o DD.gv[PlatSeq[i]]
+                                  \o Cat([j \in 1..Len(StageSeq) |-> DD.sv[PlatSeq[i]][StageSeq[j]]])])
   \o "|" \o
-  Cat([i \in 1..Len(CompSeq) |-> LET cc == DD.comp[CompSeq[i]] IN (IF cc.present THEN "P" ELSE "A") \o cc.cv \o cc.args \o cc.np])
+  Cat([i \in 1..Len(CompSeq) |-> LET cc == DD.comp[CompSeq[i]] IN (IF cc.present THEN "P" ELSE "A") \o cc.cv \o cc.args \o cc.np
+                                                                             \o cc.ri \o cc.srep \o cc.ip])
   \o "|" \o
   Cat([i \in 1..Len(CompSeq) |-> Cat([j \in 1..Len(PlatSeq) |-> IF <<CompSeq[i], PlatSeq[j]>> \in DOMAIN ca THEN "1" ELSE "0"])])
   \o "|" \o (CASE ha = "none" -> "N" [] ha = "hit" -> "H" [] ha = "miss" -> "M" [] ha = "other" -> "O")
